@@ -631,7 +631,7 @@ def check_C11(sc, v, tier, seed, replay):
 
 def check_C17(sc, v, tier, seed, replay):
     evs, rejects = _convert_run(sc, v, tier, seed, "convert")
-    v.evaluations = sum(256 if e["ev"] == "AmfIdRow" else 1 for e in evs)
+    v.evaluations = sum(256 if e["ev"] == "AmfIdRow" else len(e["mncs"]) if e["ev"] == "PlmnRow" else 1 for e in evs)
     for e in evs:
         d = dict(e)
         d.pop("id")
@@ -639,7 +639,8 @@ def check_C17(sc, v, tier, seed, replay):
     v.samples = [e for e in evs if e["ev"] in ("Tla", "Pco")][:2]
     v.rule = ("all SST x {no SD, boundary SDs, random}; AMF ids in rows of 256 (quick 3 x 2^16, thorough 32 x 2^16 of the 2^24); IPv4 / IPv6 / dual-stack "
               "addresses incl. boundary values, both directions; PCO lists of 0..8 containers with contents 0..255 octets, marshalled and parsed back "
-              "(parser state machine ReadingID/Length/Content in TLA+); DNN; PLMN conversion is covered by C11; distinct = distinct event")
+              "(parser state machine ReadingID/Length/Content in TLA+) and the option list built by the helper constructors; DNN; three complete rows "
+              "(all 1100 MNCs) of the PLMN conversion, the full table being C11's; distinct = distinct event")
     v.assumptions = ["TS 24.501 9.11.2.8, TS 23.003 2.10.1, TS 38.414 5.1, TS 24.008 10.5.6.3 as transcribed in TraceConvert.tla"]
 
     def key(r, e):
@@ -988,9 +989,9 @@ def check_C20(sc, v, tier, seed, replay):
         sc.run("rec-conc", ["-seed", seed, "-out", t2, "-stress", gcount, "-rounds", 12 if tier == "quick" else 40], env=env, timeout=1800)
         evs += open(t2).read().splitlines()
     # tight variant: primitives and codecs only, each goroutine under its own keys, many closely spaced calls
-    for gcount in ([8] if tier == "quick" else [3, 8, 64]):
+    for gcount, iters in ([(8, 500), (64, 48), (2, 400)] if tier == "quick" else [(3, 1500), (8, 1500), (64, 300), (2, 1500)]):
         t3 = os.path.join(sc.work, "tight%d.ndjson" % gcount)
-        sc.run("rec-conc", ["-seed", seed, "-out", t3, "-stress", gcount, "-rounds", 1000 + (500 if tier == "quick" else 1500)], env=env, timeout=1800)
+        sc.run("rec-conc", ["-seed", seed, "-out", t3, "-stress", gcount, "-rounds", 1000 + iters], env=env, timeout=1800)
         evs += open(t3).read().splitlines()
     import glob
     races = 0
